@@ -64,6 +64,9 @@ func genPacketSpec(t *core.Tape, maxPayload int) *pktSpec {
 	switch s.profile {
 	case profOneByte:
 		n := 1 + t.Weighted(6, 3, 1, 1)
+		if t.Chance(1, 12) {
+			n = 0 // extension flag set, empty extension block
+		}
 		used := map[uint8]bool{}
 		for i := 0; i < n; i++ {
 			id := uint8(1 + t.Intn(14))
@@ -76,6 +79,9 @@ func genPacketSpec(t *core.Tape, maxPayload int) *pktSpec {
 		}
 	case profTwoByte:
 		n := 1 + t.Weighted(6, 3, 1, 1)
+		if t.Chance(1, 12) {
+			n = 0
+		}
 		used := map[uint8]bool{}
 		for i := 0; i < n; i++ {
 			id := uint8(1 + t.Intn(255))
